@@ -4,6 +4,7 @@ import KitModel.Generated.C14
 import KitProofs.Lemmas.Containers
 import KitProofs.Lemmas.Buffered
 import KitProofs.Lemmas.LinCheck
+import KitProofs.Lemmas.LinComplete
 import KitProofs.Lemmas.RingGo
 /-!
 # C14 — containers refine their models
@@ -229,9 +230,22 @@ theorem getOrCreate_first_section_readonly (k : Nat) (c : Int) (s s' : AMSt) (ou
 /-- **Checker soundness.** Whenever `linCheck` (the function `kitdrv C14` runs on the stamped
 histories recorded from the real objects) answers `true`, the history is linearizable in the
 sense of `Linearizable` — whatever result hints the invocations carry. -/
-theorem lin_checker_sound [BEq σ] [BEq ι] [BEq ρ] [LawfulBEq ρ] (S : Spec σ ι ρ) (h : List (HEv ι ρ))
+theorem lin_checker_sound [DecidableEq σ] [DecidableEq ι] [DecidableEq ρ] (S : Spec σ ι ρ) (h : List (HEv ι ρ))
     (hc : linCheck S h = true) : Linearizable S (h.map HEv.toEv) :=
   linCheck_sound S h hc
+
+/-- **Checker completeness.** For a complete, consistently annotated history (one operation in
+flight per thread, every response carries the result announced at its invocation, nothing in flight
+at the end — what the harness sends, and what the driver verifies with `wellAnnotatedB` before it
+answers) a linearizable history is always accepted: a `false` means *not linearizable*. -/
+theorem lin_checker_complete [DecidableEq σ] [DecidableEq ι] [DecidableEq ρ] (S : Spec σ ι ρ) (h : List (HEv ι ρ))
+    (hw : WellAnnotated (fun _ => none) h) (hl : Linearizable S (h.map HEv.toEv)) : linCheck S h = true :=
+  linCheck_complete S h hw hl
+
+/-- the driver's verdict is exact: on inputs that pass `wellAnnotatedB` the checker decides linearizability -/
+theorem lin_checker_decides [DecidableEq σ] [DecidableEq ι] [DecidableEq ρ] (S : Spec σ ι ρ) (h : List (HEv ι ρ))
+    (hb : wellAnnotatedB [] h = true) : linCheck S h = true ↔ Linearizable S (h.map HEv.toEv) :=
+  ⟨linCheck_sound S h, linCheck_complete S h (by simpa [lookupT] using wellAnnotatedB_sound [] h hb)⟩
 
 /-- the four instances the driver runs -/
 theorem lin_checker_sound_instances :
@@ -240,6 +254,9 @@ theorem lin_checker_sound_instances :
     (∀ h, linCheck amSpec h = true → Linearizable amSpec (h.map HEv.toEv)) ∧
     (∀ h, linCheck slSpec h = true → Linearizable slSpec (h.map HEv.toEv)) :=
   ⟨linCheck_sound _, linCheck_sound _, linCheck_sound _, linCheck_sound _⟩
+
+example : wellAnnotatedB [] ([.inv 0 (.store 1 5) .unit, .inv 1 (.load 1) (.val 5 true), .ret 1 (.val 5 true), .ret 0 .unit] : List (HEv MapOp Ret)) = true := by
+  decide
 
 example : linCheck mapSpec [.inv 0 (.store 1 5) .unit, .inv 1 (.load 1) (.val 5 true), .ret 1 (.val 5 true), .ret 0 .unit] = true := by
   decide
